@@ -111,7 +111,12 @@ func toCanon(t *consensus.TimedWALMessage) (canon, bool) {
 	case types.EventDataRoundState:
 		c.H, c.R, c.Step = v.Height, v.Round, v.Step
 	default:
-		return c, false
+		// msgInfo / timeoutInfo are unexported: go through the exported converter
+		pb, err := consensus.WALToProto(t.Msg)
+		if err != nil {
+			return c, false
+		}
+		return canonOfProto(pb, c.TimeNs)
 	}
 	return c, true
 }
